@@ -723,7 +723,7 @@ NOTE:
 
 
 from numpy import asarray, choose, zeros, ones, ndarray
-from numpy import shape, broadcast, empty, atleast_1d
+from numpy import shape, broadcast, empty, atleast_1d, result_type
 #from random import sample, choice
 def discrete(samples, index=None):
     """impose a discrete set of input values for the selected function
@@ -1715,6 +1715,7 @@ Examples:
         def func(x, *args, **kwds):
             xtype = type(x)
             x = asarray(list(x)) #XXX: faster to use array(x, copy=True) ?
+            x = x.astype(result_type(x, asarray(target))) # can hold target
             n = len(x) # only use the indices (and their targets) that are in range
             if hasattr(target, '__len__'):
                 at = [(i,t) for (i,t) in zip(index, target) if -n <= i < n]
